@@ -79,6 +79,10 @@ def check_c19(prop, tier):
         # random sequences over all kinds + construction paths
         n = 200 if tier == "quick" else 4000
         hs2 = [qscen([rand_queue_calls(rng, rng.range(8, 30), rng.choice([2, 3, 5]))], {"mode": "fixed", "seq": []}) for _ in range(n)]
+        for k in range(0, n, 3):
+            # timestamps in microseconds / at the 64-bit limit (the listing sorts by them), ids in the ULID format
+            hs2[k]["tsoff"] = str([1800000000000000, (1 << 64) - 100000][(k // 3) % 2])
+            hs2[k]["ulid"] = (k // 3) % 4 >= 2
         nb = 0
         for via in ("from_vec", "from", "text", "json"):
             for _ in range(25 if tier == "quick" else 400):
@@ -88,7 +92,11 @@ def check_c19(prop, tier):
                 for j in range(k):
                     i = ids.pop(rng.below(len(ids)))
                     inp.append(scen.rand_order(rng, i, rng.range(1, 6)))
-                hs2.append({"via": via, "input": inp})
+                b = {"via": via, "input": inp}
+                if nb % 3 == 1:
+                    b["tsoff"] = str([1800000000000000, (1 << 64) - 100000][(nb // 3) % 2])
+                    b["ulid"] = (nb // 3) % 4 >= 2
+                hs2.append(b)
                 nb += 1
         h2 = run_harness("queue", hs2, work, "tv")
         s2 = tv(h2["trace"], "TraceQueue", "TraceQueue", work, timeout=3000)
